@@ -38,18 +38,18 @@ type c17Holder struct {
 	// nullable columns over plain (non-pointer) numeric fields: what the library's own
 	// schemas give a field tagged omitempty. Each 32/16-bit field is followed by a field
 	// the schema does not name, so that an over-wide load or store shows.
-	OF32   float32 `json:"of32,omitempty"`  // ["null","double"]
+	OF32   float32 `json:"of32,omitempty"` // ["null","double"]
 	OF32x  uint32  `json:"-"`
 	OF32b  float32 `json:"of32b,omitempty"` // ["double","null"]
 	OF32bx uint32  `json:"-"`
 	OF32f  float32 `json:"of32f,omitempty"` // ["null","float"]
 	OF32fx uint32  `json:"-"`
-	OF64   float64 `json:"of64,omitempty"`  // ["null","double"]
-	OI16   int16   `json:"oi16,omitempty"`  // ["null","int"]
+	OF64   float64 `json:"of64,omitempty"` // ["null","double"]
+	OI16   int16   `json:"oi16,omitempty"` // ["null","int"]
 	OI16x  uint16  `json:"-"`
-	OI32   int32   `json:"oi32,omitempty"`  // ["long","null"]
+	OI32   int32   `json:"oi32,omitempty"` // ["long","null"]
 	OI32x  uint32  `json:"-"`
-	OI64   int64   `json:"oi64,omitempty"`  // ["null","long"]
+	OI64   int64   `json:"oi64,omitempty"` // ["null","long"]
 }
 
 type c17SliceCase struct {
